@@ -75,7 +75,7 @@ func RunCheck(spec *CheckSpec, tier string, seed int64) int {
 	os.MkdirAll(filepath.Join(Root, "evidence"), 0o755)
 
 	merged := Result{Property: spec.ID, Tier: tier, Seed: seed,
-		Counters: map[string]int64{}, Distinct: map[string]int64{}, Known: map[string]int64{}, KnownWhat: map[string]string{}}
+		Counters: map[string]int64{}, Distinct: map[string]int64{}, Known: map[string]int64{}, KnownWhat: map[string]string{}, SigCounts: map[string]int64{}}
 	var headlineDistinct int64
 	phaseWall := map[string]float64{}
 	var phaseNames []string
@@ -217,6 +217,9 @@ func RunCheck(spec *CheckSpec, tier string, seed int64) int {
 				if extra := res.NViolations - int64(len(res.Violations)); extra > 0 {
 					merged.NViolations += extra
 				}
+				for k, v := range res.SigCounts {
+					merged.SigCounts[k] += v
+				}
 				for k, v := range res.Known {
 					merged.Known[k] += v
 					merged.KnownWhat[k] = res.KnownWhat[k]
@@ -315,6 +318,9 @@ func RunCheck(spec *CheckSpec, tier string, seed int64) int {
 	if len(vsum) > 0 {
 		cov["violation_witnesses"] = vsum
 	}
+	if len(merged.SigCounts) > 0 {
+		cov["violation_signature_counts"] = merged.SigCounts
+	}
 	verdict := "held"
 	if merged.NViolations > 0 {
 		verdict = "violated"
@@ -347,6 +353,25 @@ func RunCheck(spec *CheckSpec, tier string, seed int64) int {
 	}
 	if extra := merged.NViolations - int64(len(merged.Violations)); extra > 0 {
 		fmt.Printf("  (+%d further violations not stored individually)\n", extra)
+	}
+	if len(merged.SigCounts) > 0 {
+		type kv struct {
+			k string
+			v int64
+		}
+		var kvs []kv
+		for k, v := range merged.SigCounts {
+			kvs = append(kvs, kv{k, v})
+		}
+		sort.Slice(kvs, func(i, j int) bool { return kvs[i].v > kvs[j].v || (kvs[i].v == kvs[j].v && kvs[i].k < kvs[j].k) })
+		fmt.Printf("  violation signatures (%d distinct):", len(kvs))
+		for i, e := range kvs {
+			if i >= 60 {
+				break
+			}
+			fmt.Printf(" %s=%d", e.k, e.v)
+		}
+		fmt.Println()
 	}
 	for _, s := range merged.Inconcl {
 		fmt.Printf("INCONCLUSIVE property=%s reason=%s\n", spec.ID, s)
